@@ -130,6 +130,10 @@ func c07Judge(c *core.Case, p *c07Prog, full map[string]cty.Value, perturb func(
 func c07Case(c *core.Case) {
 	r := c.Rng
 	if c.Index%5 == 4 {
+		if c.Index%25 == 24 {
+			c07DynBodyCase(c)
+			return
+		}
 		c07BodyCase(c)
 		return
 	}
@@ -267,6 +271,72 @@ func specForBody(b *gen.Body) hcldec.Spec {
 	return obj
 }
 
+// c07DynBodyCase takes C18's generated bodies (nested dynamic blocks, every
+// block spec kind incl. single blocks and block-attributes specs) through the
+// three-scope relation.
+func c07DynBodyCase(c *core.Case) {
+	r := c.Rng
+	if c.Index == 24 && c.Batch == 0 {
+		// directed (adjudicated finding, known_findings.json): content read through a
+		// block-attributes spec
+		src := "dynamic \"tags\" {\n  for_each = coll\n  content {\n    a = foo\n  }\n}\n"
+		f, _ := hclsyntax.ParseConfig([]byte(src), "d.hcl", hcl.InitialPos)
+		spec := &hcldec.BlockAttrsSpec{TypeName: "tags", ElementType: cty.String}
+		full := map[string]cty.Value{"coll": cty.ListVal([]cty.Value{cty.StringVal("x")}), "foo": cty.StringVal("FOO"), "other": cty.True}
+		p := &c07Prog{src: src, kind: "dynblock-content-under-BlockAttrsSpec",
+			vars: func() []hcl.Traversal {
+				return append(dynblock.ExpandVariablesHCLDec(f.Body, spec), dynblock.VariablesHCLDec(f.Body, spec)...)
+			},
+			eval: func(ctx *hcl.EvalContext) (cty.Value, hcl.Diagnostics) {
+				return hcldec.Decode(dynblock.Expand(f.Body, ctx), spec, ctx)
+			}}
+		c.SetInput(src + "decoded with BlockAttrsSpec{tags}")
+		if rule, msg := c07Judge(c, p, full, func(name string, v cty.Value) cty.Value { return cty.StringVal("changed") }); rule != "" {
+			c.Violation(rule+"/"+p.kind, msg, nil)
+		}
+		c.NonTrivial("directed:" + p.kind)
+		return
+	}
+	c18NoAttrsKind = true
+	dp := c18Build(r)
+	c18NoAttrsKind = false
+	if dp == nil {
+		c.Count("skipped:no-dynamic-block-generated")
+		return
+	}
+	f, pd := hclsyntax.ParseConfig([]byte(dp.dsrc), "d.hcl", hcl.InitialPos)
+	if pd.HasErrors() {
+		return
+	}
+	c.SetInput(dp.dsrc + "\nSCOPE: " + scopeStr(dp.sc))
+	spec := dp.spec
+	p := &c07Prog{src: dp.dsrc, kind: "generated-dynblock-body",
+		vars: func() []hcl.Traversal {
+			return append(dynblock.ExpandVariablesHCLDec(f.Body, spec), dynblock.VariablesHCLDec(f.Body, spec)...)
+		},
+		eval: func(ctx *hcl.EvalContext) (cty.Value, hcl.Diagnostics) {
+			return hcldec.Decode(dynblock.Expand(f.Body, ctx), spec, ctx)
+		}}
+	full := map[string]cty.Value{}
+	for k, v := range dp.sc.Vars {
+		full[k] = v
+	}
+	c.Count("route:generated-dynblock-body")
+	rule, msg := c07Judge(c, p, full, func(name string, v cty.Value) cty.Value { return gen.AnyValue(r, 1, gen.ValOpts{StrLevel: 1}) })
+	if rule != "" {
+		cls := rule + "/" + p.kind
+		if strings.Contains(fmt.Sprint(dp.kinds), "attrs") {
+			cls += "/with-block-attributes-spec"
+		}
+		c.Violation(cls, fmt.Sprintf("body\n%s\nspec block kinds %v\n%s", trunc(dp.dsrc, 600), dp.kinds, msg), nil)
+		return
+	}
+	c.Count("three-scope-relation-held")
+	if roots := rootsOf(p.vars()); len(roots) >= 2 {
+		c.NonTrivial(dp.dsrc)
+	}
+}
+
 func c07BodyCase(c *core.Case) {
 	r := c.Rng
 	sc := gen.NewScope(r, gen.ValOpts{StrLevel: 1})
@@ -303,6 +373,26 @@ func c07BodyCase(c *core.Case) {
 		}
 	}
 	limit(spec)
+	if gen.Chance(r, 0.15) {
+		// a schema violation at some level (a required argument that is not
+		// there): decoding still evaluates everything else, so everything else
+		// is still a dependency
+		var objs []hcldec.ObjectSpec
+		var collect func(s hcldec.Spec)
+		collect = func(s hcldec.Spec) {
+			if o, ok := s.(hcldec.ObjectSpec); ok {
+				objs = append(objs, o)
+				for _, sub := range o {
+					if bt, ok := sub.(*hcldec.BlockTupleSpec); ok {
+						collect(bt.Nested)
+					}
+				}
+			}
+		}
+		collect(spec)
+		gen.Pick(r, objs)["zz_required"] = &hcldec.AttrSpec{Name: "zz_required", Type: cty.String, Required: true}
+		c.Count("spec:with-missing-required-argument")
+	}
 	src := gen.RenderNative(body, gen.CanonicalFileLayout())
 	useDyn := gen.Chance(r, 0.4)
 	if useDyn {
